@@ -331,6 +331,19 @@ def programs(tier, seed):
         q["entry"] = main
         q["name"] = "called-and-kept-in-one-body/%s" % order
         ps.append(q)
+    # path names with characters that mean something in the dot language (port separator, quotes, spaces, ...)
+    for names in (["/sp/a:b", "/sp/a", "/sp/x y", "/sp/top"], ["/sp/\"raw\"", "/sp/it's", "/sp/a->b", "/sp/top"], ["/sp/a;b", "/sp/{c}", "/sp/[d]", "/sp/top"]):
+        q = gen.new_program("g%d" % k)
+        k += 1
+        m = gen.add_module(q, "gm")
+        leafs = [gen.add_fn(q, m, "sp%d" % i, const=i) for i in range(4)]
+        q["fns"][leafs[1]]["stmts"] = [gen.s_keep(names[0], leafs[0], [])]
+        q["fns"][leafs[2]]["stmts"] = [gen.s_keep(names[1], leafs[1], []), gen.s_load(names[0])]
+        main = gen.add_fn(q, m, "gmain", const=9)
+        q["fns"][main]["stmts"] = [gen.s_keep(names[2], leafs[2], []), gen.s_keep(names[3], leafs[3], [])]
+        q["entry"] = main
+        q["name"] = "special-characters-in-paths/%s" % names[0][4:]
+        ps.append(q)
     # the same function kept under two paths
     q = gen.new_program("g%d" % k)
     k += 1
